@@ -225,6 +225,29 @@ def r_prov(ctx) -> RuleResult:
 # --------------------------------------------------------------------------- R-KWEXACT
 
 
+def _const_loop_envs(ctx, fi: FuncInfo, node: ast.AST) -> list[dict]:
+    """bindings of variables that an enclosing loop / comprehension iterates over a constant container"""
+    parents = {}
+    for n in ast.walk(fi.node):
+        for c in ast.iter_child_nodes(n):
+            parents[id(c)] = n
+    envs = [{}]
+    cur = node
+    while id(cur) in parents:
+        cur = parents[id(cur)]
+        gens = []
+        if isinstance(cur, ast.For):
+            gens = [(cur.target, cur.iter)]
+        elif isinstance(cur, (ast.ListComp, ast.SetComp, ast.DictComp, ast.GeneratorExp)):
+            gens = [(g.target, g.iter) for g in cur.generators]
+        for tg, it in gens:
+            if isinstance(tg, ast.Name):
+                c = try_const(ctx, fi, it, default=None)
+                if isinstance(c, (set, frozenset, list, tuple, dict)) and 0 < len(c) <= 12:
+                    envs = [{**e, tg.id: v} for e in envs for v in (sorted(c) if isinstance(c, (set, frozenset)) else list(c))]
+    return envs
+
+
 def _token_predicates(ctx, fi: FuncInfo):
     """(owner node, loop variable, predicate expr) for filters over the tokens of an atom line"""
     out = []
@@ -241,6 +264,11 @@ def _token_predicates(ctx, fi: FuncInfo):
                         any(isinstance(x, ast.Constant) and isinstance(x.value, str) for x in ast.walk(st.test)):
                     out.append((st, n.target.id, st.test))
     return out
+
+
+def pred_accepts_any(ctx, fi, pred, var, tok, env0=None) -> bool:
+    """as pred_accepts, for every binding of enclosing constant-loop variables"""
+    return any(pred_accepts(pred, var, tok, {**(env0 or {}), **e}) for e in _const_loop_envs(ctx, fi, pred))
 
 
 def pred_accepts(pred: ast.expr, var: str, tok: str, env0: dict | None = None) -> bool:
@@ -277,13 +305,24 @@ def r_kwexact(ctx) -> RuleResult:
     for f, owner, var, pred in preds:
         # bind other free names of the predicate from simple constant assignments in the function
         env0 = {}
-        for nm in names_in(pred) - {var}:
+        p_ast = pred[1] if isinstance(pred, tuple) else pred
+        for nm in names_in(p_ast) - {var}:
             v = try_const(ctx, f, ast.Name(nm, ast.Load()), default=None)
             if v is not None:
                 env0[nm] = v
 
-        def accepts(tok: str) -> bool:
-            return pred_accepts(pred, var, tok, env0)
+        loop_envs = _const_loop_envs(ctx, f, pred)
+        if len(loop_envs) > 1:
+            # one recognizer per value of the constant loop variable (table-driven recognizers)
+            for le in loop_envs:
+                preds.append((f, owner, var, ("bound", pred, le)))
+            continue
+        bound_env = {}
+        if isinstance(pred, tuple) and pred[0] == "bound":
+            _, pred, bound_env = pred
+
+        def accepts(tok: str, pred=pred, bound_env=bound_env) -> bool:
+            return pred_accepts(pred, var, tok, {**env0, **bound_env})
         try:
             own = [kw for kw in ("CHG", "MASS", "RAD") if all(accepts(t) for t in spec_tokens[kw][:2])]
         except Unsupported as e:
@@ -1150,6 +1189,11 @@ def r_graphbuild(ctx) -> RuleResult:
     rets = [n for n in own_walk(fn) if isinstance(n, ast.Return) and n.value is not None]
     for r in rets:
         v = r.value
+        if isinstance(v, ast.Name):
+            dv = [d for d in assigned_names(fn).get(v.id, []) if isinstance(d, (ast.Assign, ast.AnnAssign)) and isinstance(d.targets[0] if isinstance(d, ast.Assign) else d.target, ast.Name)
+                  and d.lineno < r.lineno and d.value is not None]
+            if dv:
+                v = sorted(dv, key=lambda d: d.lineno)[-1].value       # the binding that reaches the return in straight-line code
         conv = isinstance(v, ast.Call) and norm(v.func).endswith("convert_node_labels_to_integers")
         if conv:
             bad_kw = [k for k in v.keywords if k.arg in ("ordering", "first_label") and not (isinstance(k.value, ast.Constant) and k.value.value in ("default", 0))]
